@@ -39,7 +39,9 @@ let f_o counts = let n = len counts in
        | Done (c, g) -> Done (sl c ^ " " ^ sl g) | Panic -> Panic | OutOfFuel -> OutOfFuel)
 let f_h depth = let n = len depth in
   out (match store_huffman_tree depth (nn n) (repeat node0 (2 * 704 + 1)) [] with
-       | Done (b, _) -> Done (bstr b) | Panic -> Panic | OutOfFuel -> OutOfFuel)
+       | Done ((b, _), _) -> Done (bstr b) | Panic -> Panic | OutOfFuel -> OutOfFuel)
+let q_h depth = let n = len depth in
+  (match store_huffman_tree depth (nn n) (repeat node0 (2 * 704 + 1)) [] with Done ((_, _), r) -> int_of_n r | _ -> -1)
 let m_b alphabet counts = let n = len counts in
   build_and_store_huffman_tree counts (nn n) (nn alphabet) (repeat node0 (2 * (max n 18) + 1)) (zeros n) (zeros n) []
 let f_b alphabet counts =
@@ -168,6 +170,7 @@ let () = iter_lines (fun line ->
     (* retries of the main tree (limit 15) as run by BuildAndStoreHuffmanTree *)
     print_endline (if nz_count (Stdlib.List.map int_of_n c) < 2 then "-1" else
                    match m_t 15 c with Done (_, r) -> string_of_int r | _ -> "-1"); ignore a
+  | ["Q"; "H"; d] -> print_endline (string_of_int (q_h (nl d)))
   | ["Q"; "F"; m; c] -> print_endline (match m_f (i m) (nl c) with Done (_, r) -> string_of_int (int_of_n r) | _ -> "-1")
   | "S" :: rest -> print_endline (spec rest)
   | ["E"; nsym; maxc; lo; hi] ->
